@@ -31,6 +31,10 @@ pub enum ErrFault {
     /// legal short write of j bytes: the clone must still succeed
     Short(u16),
     Pending,
+    /// a seek of the output fails (weaker oracle: success implies a correct output)
+    SeekErr,
+    /// a read of the output fails (in-place scan / reorder)
+    ReadErr,
 }
 
 #[derive(Clone, Debug, Serialize, Deserialize)]
@@ -118,6 +122,11 @@ fn interrupt(cx: &Ctx, state: Option<Vec<u8>>, first: bool, keep_seeds: bool, k:
     Ok((new_state, fired, during_reorder))
 }
 
+fn measure_ops(cx: &Ctx, state: Option<Vec<u8>>, first: bool, keep_seeds: bool) -> (usize, usize) {
+    let rep = run_once(cx, state, first, keep_seeds, vec![]);
+    rep.output.map(|o| (o.seeks, o.read_calls)).unwrap_or((0, 0))
+}
+
 fn measure_writes(cx: &Ctx, state: Option<Vec<u8>>, first: bool, keep_seeds: bool) -> Result<(usize, usize, Vec<usize>), String> {
     let rep = run_once(cx, state, first, keep_seeds, vec![]);
     rep.result.clone().map_err(|x| format!("uninterrupted run failed: {} (stage {})", x, rep.stage))?;
@@ -154,7 +163,10 @@ fn run_case(c: &Case, rec: &mut CaseRec) -> Result<(), String> {
     if let Some((kf, f)) = &c.error {
         let (w, _, _) = measure_writes(&cx, state.clone(), first, c.keep_seeds)?;
         let k = idx(*kf, w.max(1));
+        let (nseeks, nreads) = if matches!(f, ErrFault::SeekErr | ErrFault::ReadErr) { measure_ops(&cx, state.clone(), first, c.keep_seeds) } else { (0, 0) };
         let fault = match f {
+            ErrFault::SeekErr => WriteFault::SeekFail { k: idx(*kf, nseeks.max(1)) },
+            ErrFault::ReadErr => WriteFault::ReadFail { k: idx(*kf, nreads.max(1)) },
             ErrFault::Eio => WriteFault::Fail { k, kind: FaultKind::Eio },
             ErrFault::Enospc => WriteFault::Fail { k, kind: FaultKind::Enospc },
             ErrFault::Zero => WriteFault::Zero { k },
@@ -169,6 +181,12 @@ fn run_case(c: &Case, rec: &mut CaseRec) -> Result<(), String> {
                 rep.result.clone().map_err(|x| format!("a legal short / pending write made the clone fail: {}", x))?;
                 check_final_output(&cx.s, &cx.e, &out.as_ref().unwrap().data)?;
                 rec.class("legal_short_or_pending_write");
+            }
+            ErrFault::SeekErr | ErrFault::ReadErr => {
+                if fired && rep.result.is_ok() {
+                    check_final_output(&cx.s, &cx.e, &out.as_ref().unwrap().data).map_err(|m| format!("a run in which a {:?} of the output failed reported success with a wrong output: {}", f, m))?;
+                }
+                rec.class_if(fired, if *f == ErrFault::SeekErr { "seek_error_injected" } else { "read_error_injected" });
             }
             _ => {
                 if fired && rep.result.is_ok() {
@@ -381,7 +399,7 @@ fn case_strategy() -> impl Strategy<Value = Case> {
         prop::collection::vec((any::<u16>(), mode_strategy()), 0..4),
         prop_oneof![
             2 => Just(None),
-            2 => (any::<u16>(), prop_oneof![Just(ErrFault::Eio), Just(ErrFault::Enospc), Just(ErrFault::Zero), (1u16..40).prop_map(ErrFault::Short), Just(ErrFault::Pending)]).prop_map(Some),
+            2 => (any::<u16>(), prop_oneof![Just(ErrFault::Eio), Just(ErrFault::Enospc), Just(ErrFault::Zero), (1u16..40).prop_map(ErrFault::Short), Just(ErrFault::Pending), Just(ErrFault::SeekErr), Just(ErrFault::ReadErr)]).prop_map(Some),
             1 => Just(Some((65535u16, ErrFault::Enospc))),
         ],
         any::<bool>(),
